@@ -778,6 +778,32 @@ fn has_oid_spelling(ty: &CTy, v: &CVal) -> bool {
 
 pub const LINK_SEP: &str = " @@ ";
 
+/// `expected_<a>_got_<b>`: do the two readings differ only in that octet strings of `<a>` are the same bits as bit strings in `<b>`?
+fn only_unlinked_octet_defaults(msg: &str) -> bool {
+    let Some(rest) = msg.strip_prefix("expected_") else { return false };
+    let Some((exp, got)) = rest.split_once("_got_") else { return false };
+    if !got.contains("bits:") {
+        return false;
+    }
+    let mut out = String::new();
+    let mut r = got;
+    while let Some(p) = r.find("bits:") {
+        out.push_str(&r[..p]);
+        let tail = &r[p + 5..];
+        let n = tail.chars().take_while(|c| *c == '0' || *c == '1').count();
+        let bits = &tail[..n];
+        if n % 8 != 0 {
+            return false;
+        }
+        let bytes: Vec<String> = bits.as_bytes().chunks(8).map(|ch| u8::from_str_radix(std::str::from_utf8(ch).unwrap_or("0"), 2).unwrap_or(0).to_string()).collect();
+        out.push_str("octets:");
+        out.push_str(&bytes.join(","));
+        r = &tail[n..];
+    }
+    out.push_str(r);
+    out == exp
+}
+
 fn gen_composite(cfg: &RunCfg, cases: &mut Vec<Case>) {
     let mut rng = Rng::new(cfg.seed ^ 0xC07C0);
     let n = cfg.budget(120, 2500);
@@ -796,7 +822,14 @@ fn gen_composite(cfg: &RunCfg, cases: &mut Vec<Case>) {
             }
             let name = format!("Cq{k}x{j}");
             defs.push(format!("{name} ::= {}", t.text()));
-            named.push(CTy::Named(name, Box::new(t)));
+            named.push(CTy::Named(name.clone(), Box::new(t)));
+            // now and then an alias of the type just defined (a chain of two references ends in it)
+            if rng.chance(1, 3) {
+                let alias = format!("Cq{k}x{j}a");
+                let inner = named.last().unwrap().clone();
+                defs.push(format!("{alias} ::= {name}"));
+                named.push(CTy::Named(alias, Box::new(inner)));
+            }
         }
         let last = named.last().unwrap().clone();
         let gov = match rng.below(6) {
@@ -885,6 +918,7 @@ pub fn run(cfg: &RunCfg) -> Report {
     let mut meta = Vec::new();
     let mut link_reqs = Vec::new();
     let mut link_meta: Vec<(usize, String)> = Vec::new();
+    let mut maybe_unlinked: std::collections::BTreeSet<usize> = std::collections::BTreeSet::new();
     let mut render_reqs = Vec::new();
     let mut render_meta: Vec<(usize, String)> = Vec::new();
     for (idx, outcome) in batch_compile(cases.len(), 100, &render, &rcfg) {
@@ -930,6 +964,11 @@ pub fn run(cfg: &RunCfg) -> Report {
                             let key = match &c.site { Site::Const(n) => n.to_lowercase(), Site::DefaultFn(n) => n.split('_').next().unwrap_or("").to_uppercase() };
                             // composite values: the generator's and the linker's refusals do not name the definition (C10 matches them by count)
                             let anonymous_refusal = c.kind.starts_with("composite") && warnings.iter().any(|w| w.contains("A type name is needed") || w.contains("LinkerError") || w.contains("unlinked"));
+                            // a braces DEFAULT of a member's type copied before that type was linked reaches the generator unlinked (known finding)
+                            let unlinked_default = c.kind.starts_with("composite") && c.src.contains("( some ( braces") && warnings.iter().any(|w| w.contains("unlinked struct-like"));
+                            if unlinked_default {
+                                maybe_unlinked.insert(i);
+                            }
                             if anonymous_refusal {
                                 let mut parts = c.src.split(LINK_SEP);
                                 let _ = parts.next();
@@ -1094,6 +1133,10 @@ pub fn run(cfg: &RunCfg) -> Report {
             }
         }
     }
+    // disagreements of the two composite models, kept back until the cases are classified: both models take the DEFAULTs of a
+    // type as linked (`Link/Values`: "a DEFAULT is stored linked"), which the linker's processing order can break (known finding)
+    let mut deferred: Vec<(usize, serde_json::Value)> = Vec::new();
+    let mut unlinked_default_cases: std::collections::BTreeSet<usize> = std::collections::BTreeSet::new();
     // the model of the linker on the composite cases: what it links = what the implementation's initialiser denotes
     match run_driver(&link_reqs) {
         Ok(ans) => {
@@ -1103,7 +1146,7 @@ pub fn run(cfg: &RunCfg) -> Report {
                 if a == "bad-request" {
                     rep.harness_errors.push(format!("bad c07link request for {}: {}", c.asn, c.src));
                 } else if a != "model=agree" {
-                    rep.disagree(json!({"case": {"asn1": c.asn, "src": c.src, "observed": v, "kind": c.kind}, "model": a, "model_of": "Link.Values.link (link_with_type / link_struct_like / link_array_like)"}));
+                    deferred.push((*i, json!({"case": {"asn1": c.asn, "src": c.src, "observed": v, "kind": c.kind}, "model": a, "model_of": "Link.Values.link (link_with_type / link_struct_like / link_array_like)"})));
                 }
             }
         }
@@ -1117,8 +1160,11 @@ pub fn run(cfg: &RunCfg) -> Report {
                 rep.count(&format!("render-model:{}", a.split(':').next().unwrap_or(a)));
                 if a == "bad-request" {
                     rep.harness_errors.push(format!("bad c07render request for {}: {} {}", c.asn, c.src, sh));
+                } else if a.starts_with("model=differ:renders_") && maybe_unlinked.contains(i) {
+                    // the model (DEFAULTs stored linked) renders it, the generator met an unlinked copy: the known finding, not a second alarm
+                    rep.unsat("C07_default_copied_before_its_type_was_linked", true, json!({"why": "refused with `Unexpectedly encountered unlinked struct-like ASN1 value!`: a DEFAULT copied into the value before its type was linked", "case": {"asn1": c.asn, "src": c.src}}));
                 } else if a.starts_with("model=differ") {
-                    rep.disagree(json!({"case": {"asn1": c.asn, "src": c.src, "observed": sh, "kind": c.kind}, "model": a, "model_of": "Gen.Values.render (value_to_tokens, composite arms)"}));
+                    deferred.push((*i, json!({"case": {"asn1": c.asn, "src": c.src, "observed": sh, "kind": c.kind}, "model": a, "model_of": "Gen.Values.render (value_to_tokens, composite arms)"})));
                 }
             }
         }
@@ -1158,7 +1204,18 @@ pub fn run(cfg: &RunCfg) -> Report {
             rep.disagree(json!({"case": case_json, "model": model}));
         }
         if let Some(msg) = spec.strip_prefix("bad:") {
-            rep.unsat("", agree, json!({"why": msg, "case": case_json}));
+            if c.kind.starts_with("composite") && only_unlinked_octet_defaults(msg) {
+                // a DEFAULT of a member's type, copied into a struct value before that type was linked, is still a bit string
+                unlinked_default_cases.insert(*i);
+                rep.unsat("C07_default_copied_before_its_type_was_linked", true, json!({"why": msg, "case": case_json}));
+            } else {
+                rep.unsat("", agree, json!({"why": msg, "case": case_json}));
+            }
+        }
+    }
+    for (i, d) in deferred {
+        if !unlinked_default_cases.contains(&i) {
+            rep.disagree(d);
         }
     }
     rep
